@@ -1,0 +1,13 @@
+// Verification hooks (compiled only with -DCHIBICC_VERIF; inert unless the
+// environment variable CHIBICC_VERIF_TRACE names a file). One NDJSON line
+// per event, O_APPEND, with a per-process sequence number.
+#ifndef VERIF_TRACE_H
+#define VERIF_TRACE_H
+#ifdef CHIBICC_VERIF
+int vtrace_on(void);
+// fmt is the JSON body without braces, e.g. "\"e\":\"x\",\"n\":%d"
+void vtrace(char *fmt, ...);
+// returns a JSON-escaped copy of s[0..len) (static ring of buffers)
+char *vtrace_str(char *s, int len);
+#endif
+#endif
